@@ -19,7 +19,7 @@ RULE = ('every lattice class found by reflection (Chain, Ladder, NLegLadder, Squ
 ASSUMPTIONS = ['`lat.order` (the array defining the snake) is taken as the definition of the MPS index of a site',
                'Euclidean distances from lat.position() with tolerance 1e-8']
 ANCHORS = {'tenpy/models/lattice.py': ['*']}
-REQUIRED_COUNTERS = {'multispecies.multi_site_simple_cell': 3, 'lattices': 50, 'couplings.dx_checked': 2000, 'pairs.checked': 30, 'irregular.lattices': 5,
+REQUIRED_COUNTERS = {'multispecies.multi_site_simple_cell': 3, 'helical.multi_couplings': 10, 'helical.enlarged': 3, 'lattices': 50, 'couplings.dx_checked': 2000, 'pairs.checked': 30, 'irregular.lattices': 5,
                      'multi_couplings.checked': 20, 'values.checked': 30, 'helical.lattices': 3, 'multispecies.lattices': 3}
 REQUIRED_ANCHORS = ['lattice.py:Lattice.possible_couplings', 'lattice.py:Lattice.possible_multi_couplings',
                     'lattice.py:Lattice.mps2lat_idx', 'lattice.py:Lattice.lat2mps_idx', 'lattice.py:Lattice.mps2lat_values',
@@ -718,5 +718,95 @@ def check_helical(ctx, lat, case):
                         if not (0 <= min(a, b) < N):
                             ctx.violation('helical.possible_couplings:not-in-first-unit-cell', '', case)
                             return
+        check_helical_more(ctx, lat, case)
     except Exception as e:
         ctx.violation('helical:raises-%s' % type(e).__name__, traceback.format_exc()[-500:], case)
+
+
+def check_helical_more(ctx, lat, case):
+    """All displacements (both signs), both branches (with and without strength), multi-couplings, enlarged unit cell."""
+    rng = ctx.rng
+    reg = lat.regular_lattice
+    Ly = int(reg.Ls[1])
+    nu = len(lat.unit_cell)
+
+    def helical_pos(l):
+        return int(l[0]) * Ly + int(l[1])
+
+    def one_round(lat, tag):
+        N = int(lat.N_sites)
+        n_cells = N // nu
+        dxs = [(int(a), int(b)) for a, b in rng.integers(-2, 3, size=(6, 2))]
+        for dx in dxs:
+            u1, u2 = int(rng.integers(nu)), int(rng.integers(nu))
+            if u1 == u2 and dx == (0, 0):
+                continue
+            mi, mj, li, cs = lat.possible_couplings(u1, u2, np.array(dx))
+            si, sj, sv = lat.possible_couplings(u1, u2, np.array(dx), 1.75)
+            ctx.count('helical.both_branches')
+            a = sorted(zip(np.asarray(mi).tolist(), np.asarray(mj).tolist()))
+            b = sorted(zip(np.asarray(si).tolist(), np.asarray(sj).tolist()))
+            if a != b:
+                ctx.violation('helical.possible_couplings%s:with-and-without-strength-differ' % tag, 'u1=%d u2=%d dx=%r: %r vs %r' % (u1, u2, dx, a, b), case)
+                return False
+            if not np.allclose(np.asarray(sv), 1.75):
+                ctx.violation('helical.possible_couplings%s:strength-values' % tag, repr(sv), case)
+                return False
+            if len(a) != n_cells or len(set(a)) != len(a):
+                ctx.violation('helical.possible_couplings%s:count' % tag, 'u1=%d u2=%d dx=%r: %r, expected %d distinct' % (u1, u2, dx, a, n_cells), case)
+                return False
+            for i, j in a:
+                la, lb = lat.mps2lat_idx(i), lat.mps2lat_idx(j)
+                if la[-1] != u1 or lb[-1] != u2 or helical_pos(lb) - helical_pos(la) != dx[0] * Ly + dx[1] or not (0 <= min(i, j) < N):
+                    ctx.violation('helical.possible_couplings%s:wrong-pair' % tag, 'u1=%d u2=%d dx=%r: pair (%d, %d) = %r -> %r' %
+                                  (u1, u2, dx, i, j, la.tolist(), lb.tolist()), case)
+                    return False
+        # multi-couplings
+        for _ in range(3):
+            k = int(rng.integers(2, 4))
+            ops = [('Id', [int(x) for x in rng.integers(-1, 2, size=2)], int(rng.integers(nu))) for _ in range(k)]
+            if len(set((tuple(o[1]), o[2]) for o in ops)) != k:
+                continue
+            ijk, li, cs = lat.possible_multi_couplings(ops)
+            sijk, sv = lat.possible_multi_couplings(ops, 0.5)
+            ctx.count('helical.multi_couplings')
+            a = sorted(map(tuple, np.asarray(ijk).tolist()))
+            b = sorted(map(tuple, np.asarray(sijk).tolist()))
+            if a != b or not np.allclose(np.asarray(sv), 0.5):
+                ctx.violation('helical.possible_multi_couplings%s:with-and-without-strength-differ' % tag, '%r: %r vs %r' % (ops, a, b), case)
+                return False
+            if len(a) != n_cells or len(set(a)) != len(a):
+                ctx.violation('helical.possible_multi_couplings%s:count' % tag, '%r: %r, expected %d distinct' % (ops, a, n_cells), case)
+                return False
+            for tup in a:
+                ls = [lat.mps2lat_idx(i) for i in tup]
+                p0 = helical_pos(ls[0]) - (ops[0][1][0] * Ly + ops[0][1][1])
+                ok = all(l[-1] == o[2] and helical_pos(l) - (o[1][0] * Ly + o[1][1]) == p0 for l, o in zip(ls, ops)) and 0 <= min(tup) < N
+                if not ok:
+                    ctx.violation('helical.possible_multi_couplings%s:wrong-tuple' % tag, '%r: %r = %r' % (ops, tup, [l.tolist() for l in ls]), case)
+                    return False
+        return True
+
+    if not one_round(lat, ''):
+        return
+    # enlarged MPS unit cell (in place, on a copy): same geometry, more translation classes
+    import copy
+    big = copy.deepcopy(lat)
+    f = int(rng.integers(2, 4))
+    big.enlarge_mps_unit_cell(f)
+    ctx.count('helical.enlarged')
+    if big.N_sites != f * lat.N_sites:
+        ctx.violation('helical.enlarge_mps_unit_cell:N_sites', '%d -> %d for factor %d' % (lat.N_sites, big.N_sites, f), case)
+        return
+    idx = np.arange(-big.N_sites, 2 * big.N_sites)
+    if not np.array_equal(np.asarray(big.lat2mps_idx(big.mps2lat_idx(idx))), idx):
+        ctx.violation('helical.enlarge_mps_unit_cell:index-maps-not-inverse', '', case)
+        return
+    # the helix is the same: site i of the enlarged lattice is site i of the original one (extended periodically)
+    for i in range(0, big.N_sites):
+        la, lb = lat.mps2lat_idx(i), big.mps2lat_idx(i)
+        if la[-1] != lb[-1] or helical_pos(la) != int(lb[0]) * int(big.regular_lattice.Ls[1]) + int(lb[1]):
+            ctx.violation('helical.enlarge_mps_unit_cell:site-moved', 'i=%d: %r -> %r' % (i, la.tolist(), lb.tolist()), case)
+            return
+    Ly = int(big.regular_lattice.Ls[1])
+    one_round(big, ':enlarged')
